@@ -25,6 +25,7 @@ import (
 	"github.com/oasisprotocol/curve25519-voi/curve/scalar"
 	"github.com/oasisprotocol/curve25519-voi/internal/strobe"
 	"github.com/oasisprotocol/curve25519-voi/internal/verif/alph"
+	"github.com/oasisprotocol/curve25519-voi/internal/verif/alph/alphed"
 	"github.com/oasisprotocol/curve25519-voi/internal/verif/mc"
 	"github.com/oasisprotocol/curve25519-voi/internal/verif/ref"
 	"github.com/oasisprotocol/curve25519-voi/primitives/ed25519"
@@ -647,6 +648,56 @@ func workload(c *mc.Ctx) {
 		copy(peer[:], u)
 		ss := priv.DiffieHellman(&peer)
 		return hx(r, err, d[:], pub[:], ss[:], ss.IsZero())
+	})
+
+	// ---- x25519 on the carry seams of the ladder's constant multiplication (solved-for u strings, see alphed) ----
+	seams := alphed.Mul121666Seams(c.Thorough)
+	space(c, "x25519.seams", len(seams)*2, func(i int) string {
+		sm := seams[i/2]
+		s := ref.LE32(S[(i%2*13+5)%nS])
+		r, err := x25519.X25519(s, sm.U)
+		var d, in, base [32]byte
+		copy(in[:], s)
+		copy(base[:], sm.U)
+		x25519.ScalarMult(&d, &in, &base)
+		return hx(r, err, d[:])
+	})
+
+	// ---- histories over the precomputed objects: set, copy by value, re-set one copy, use every live copy ----
+	space(c, "precomputed.histories", nP*6, func(i int) string {
+		p, q := P[i/6], P[(i/6*7+i%6+1)%nP]
+		a, b := sc(S[(3*i+1)%nS]), sc(S[(5*i+2)%nS])
+		e := curve.NewExpandedEdwardsPoint(p)
+		snap := *e // a copy by value must stay a description of p ...
+		e.SetEdwardsPoint(q)
+		snap2 := *e
+		e.SetEdwardsPoint(p) // ... and e is now p again, snap2 describes q
+		use := func(x *curve.ExpandedEdwardsPoint) string {
+			return hx(eb(x.Point()), eb(curve.NewEdwardsPoint().SetExpanded(x)),
+				eb(curve.NewEdwardsPoint().ExpandedDoubleScalarMulBasepointVartime(a, x, b)),
+				curve.NewEdwardsPoint().ExpandedTripleScalarMulBasepointVartime(a, x, b, q).IsSmallOrder(),
+				eb(curve.NewEdwardsPoint().ExpandedMultiscalarMulVartime([]*scalar.Scalar{a}, []*curve.ExpandedEdwardsPoint{x}, []*scalar.Scalar{b}, []*curve.EdwardsPoint{q})))
+		}
+		o := use(&snap) + use(&snap2) + use(e)
+		t := curve.NewEdwardsBasepointTable(p)
+		tsnap := *t
+		t = curve.NewEdwardsBasepointTable(q)
+		o += hx(eb(curve.NewEdwardsPoint().MulBasepoint(&tsnap, a)), eb(tsnap.Basepoint()), eb(curve.NewEdwardsPoint().MulBasepoint(t, a)))
+		rp, rq := curve.NewRistrettoPoint(), curve.NewRistrettoPoint()
+		var u [64]byte
+		copy(u[:], mc.Bytes(c.Seed, "c06hist", i/6, 64))
+		if _, err := rp.SetUniformBytes(u[:]); err != nil {
+			panic(err)
+		}
+		rq.Add(rp, curve.RISTRETTO_BASEPOINT_POINT)
+		re := curve.NewExpandedRistrettoPoint(rp)
+		rsnap := *re
+		re.SetRistrettoPoint(rq)
+		ruse := func(x *curve.ExpandedRistrettoPoint) string {
+			return hx(rb(x.Point()), rb(curve.NewRistrettoPoint().ExpandedDoubleScalarMulBasepointVartime(a, x, b)),
+				rb(curve.NewRistrettoPoint().ExpandedMultiscalarMulVartime([]*scalar.Scalar{a}, []*curve.ExpandedRistrettoPoint{x}, nil, nil)))
+		}
+		return o + ruse(&rsnap) + ruse(re)
 	})
 
 	_ = binary.LittleEndian
